@@ -85,7 +85,31 @@ func (r *report) finish(p *sym.Program, wall time.Duration) int {
 	knownHeld := map[string]int{}
 	var viols []sym.Violation
 	nontrivial := 0
+	selfOK, selfN := 0, 0
 	for _, c := range r.results {
+		if strings.HasPrefix(c.Spec.Tag, "self:") {
+			// engine self-test: the planted defect must be detected
+			selfN++
+			want := strings.TrimPrefix(c.Spec.Tag, "self:")
+			got := false
+			if want == "nocert" {
+				got = c.Certs > 0 && c.CertIssued == 0
+			}
+			for _, v := range c.Violations {
+				if v.Kind == want {
+					got = true
+				}
+			}
+			if got {
+				selfOK++
+			} else {
+				incomplete = append(incomplete, "ENGINE SELF-TEST FAILED: "+c.Spec.ID()+" did not report "+want)
+			}
+			c.Violations = nil
+			c.CertNotes = nil
+			stats.Add(&c.Stats)
+			continue
+		}
 		stats.Add(&c.Stats)
 		paths += c.Paths
 		steps += c.Steps
@@ -295,7 +319,7 @@ func (r *report) finish(p *sym.Program, wall time.Duration) int {
 	knownN := 0
 	for _, vo := range outs {
 		if vo.Reproduced == "reproduced" {
-			if vo.V.Known != "" {
+			if _, listed := r.known[vo.V.Known]; vo.V.Known != "" && listed {
 				knownN++
 			} else {
 				violN++
@@ -333,6 +357,7 @@ func (r *report) finish(p *sym.Program, wall time.Duration) int {
 		"known_findings_not_observed": stale,
 		"known_finding_sites_holding": knownHeld,
 		"module_has_select": p.HasSelect,
+		"engine_selftests":  fmt.Sprintf("%d/%d planted defects detected", selfOK, selfN),
 	}
 	ev := map[string]interface{}{
 		"property_id": r.opt.prop,
